@@ -1391,6 +1391,14 @@ class CodeGenerator(NodeVisitor):
         self.macro_def(macro_ref, macro_frame)
 
     def visit_CallBlock(self, node: nodes.CallBlock, frame: Frame) -> None:
+        # like other output, not rendered outside of blocks by a child template
+        if frame.require_output_check:
+            if self.has_known_extends:
+                return
+
+            self.writeline("if parent_template is None:")
+            self.indent()
+
         call_frame, macro_ref = self.macro_body(node, frame)
         self.writeline("caller = ")
         self.macro_def(macro_ref, call_frame)
@@ -1398,7 +1406,18 @@ class CodeGenerator(NodeVisitor):
         self.visit_Call(node.call, frame, forward_caller=True)
         self.end_write(frame)
 
+        if frame.require_output_check:
+            self.outdent()
+
     def visit_FilterBlock(self, node: nodes.FilterBlock, frame: Frame) -> None:
+        # like other output, not rendered outside of blocks by a child template
+        if frame.require_output_check:
+            if self.has_known_extends:
+                return
+
+            self.writeline("if parent_template is None:")
+            self.indent()
+
         filter_frame = frame.inner()
         filter_frame.symbols.analyze_node(node)
         self.enter_frame(filter_frame)
@@ -1408,6 +1427,9 @@ class CodeGenerator(NodeVisitor):
         self.visit_Filter(node.filter, filter_frame)
         self.end_write(frame)
         self.leave_frame(filter_frame)
+
+        if frame.require_output_check:
+            self.outdent()
 
     def visit_With(self, node: nodes.With, frame: Frame) -> None:
         with_frame = frame.inner()
